@@ -229,7 +229,8 @@ class DeployEngine(object):
         group_of = {}
         # same-chip groups (chained / duplicated members)
         for _ in range(t.draw_small(4, 0.4)):
-            k = 2 + t.draw(3)
+            # (a group of one, or of none, constrains nothing but is legal)
+            k = [1, 2, 2, 3, 4, 0][t.draw_small(6, 0.8)]
             members = [vs[t.draw(len(vs))] for _ in range(k)]
             out.append(cons.SameChipConstraint(members))
             g.same_chip.append(members)
